@@ -299,3 +299,82 @@ func init() {
 		}
 	}
 }
+
+// ---- where the transport's "encrypted" (= payload checksum off) flag comes from ----
+
+// encryptedIsMutualTLS: in NewTCPTransport the field `encrypted` of the TCP
+// literal is initialised with exactly `<param>.MutualTLS`.
+func encryptedIsMutualTLS() bool {
+	p := loadPkg("internal/transport")
+	fd := p.Func("", "NewTCPTransport")
+	res, found := false, false
+	ast.Inspect(fd.Body, func(n ast.Node) bool {
+		kv, ok := n.(*ast.KeyValueExpr)
+		if !ok {
+			return true
+		}
+		if id, ok := kv.Key.(*ast.Ident); ok && id.Name == "encrypted" {
+			found = true
+			if se, ok := kv.Value.(*ast.SelectorExpr); ok && se.Sel.Name == "MutualTLS" {
+				if _, ok := se.X.(*ast.Ident); ok {
+					res = true
+				}
+			}
+		}
+		return true
+	})
+	if !found {
+		panic("NewTCPTransport: field encrypted not initialised in a composite literal")
+	}
+	return res
+}
+
+// passesFlag: every call of fn inside the functions of tcp.go passes an
+// expression ending in `.encrypted` as its last argument.
+func passesEncrypted(fns ...string) bool {
+	p := loadPkg("internal/transport")
+	ok, seen := true, 0
+	for name, f := range p.Files {
+		if name != "tcp.go" {
+			continue
+		}
+		ast.Inspect(f, func(n ast.Node) bool {
+			c, isCall := n.(*ast.CallExpr)
+			if !isCall {
+				return true
+			}
+			id, isId := c.Fun.(*ast.Ident)
+			if !isId {
+				return true
+			}
+			for _, fn := range fns {
+				if id.Name == fn && len(c.Args) > 0 {
+					seen++
+					last := c.Args[len(c.Args)-1]
+					se, isSel := last.(*ast.SelectorExpr)
+					if !isSel || se.Sel.Name != "encrypted" {
+						ok = false
+					}
+				}
+			}
+			return true
+		})
+	}
+	if seen < 4 {
+		panic(fmt.Sprintf("expected at least 4 calls of %v, found %d", fns, seen))
+	}
+	return ok
+}
+
+func init() {
+	u := units[len(units)-1]
+	u.Facts = append(u.Facts,
+		Fact{Name: "encrypted_is_mutual_tls", Gen: func() string {
+			return defBool("encrypted_is_mutual_tls", encryptedIsMutualTLS())
+		}},
+		Fact{Name: "frame_calls_pass_encrypted", Gen: func() string {
+			return defBool("frame_calls_pass_encrypted",
+				passesEncrypted("writeMessage", "readMessage", "NewTCPConnection", "NewTCPSnapshotConnection"))
+		}},
+	)
+}
